@@ -448,7 +448,10 @@ class PrefetchedCourierServer(CourierServer):
     result = []
     try:
       batch_size = lazy_fns.maybe_make(batch_size)
-      result = self._generator.get_batch(batch_size, block=True)
+      # The elements produced before a failure are delivered ahead of it.
+      result = self._generator.get_batch(
+          batch_size, block=True, return_partial=True
+      )
     except Exception:  # pylint: disable=broad-exception-caught
       # The sequence of the result will always end with an exception.
       # Any non-StopIteration means the generator crashed. The exception
@@ -460,6 +463,8 @@ class PrefetchedCourierServer(CourierServer):
       if (e := self._generator.exception) is not None:
         if self._shutdown_requested:
           e = TimeoutError('Shutdown requested, cannot get next batch.')
+          # The generator is going to be retried as a whole.
+          result = []
         logging.exception(
             'chainable: %s',
             f'Exception during next batch call: {type(e)}: {e}',
